@@ -464,6 +464,10 @@ func (w *MemoWork) Post(out *RunOut) {
 func genC17(r *simrt.Rand, tier string, idx uint64) Workload {
 	w := &MemoWork{Held: -1}
 	w.ExpNs = []int64{50 * ms, int64(time.Second)}[r.Intn(2)]
+	if r.Intn(10) == 0 {
+		// a memoizer used for call coalescing only: what is cached expires (practically) at once
+		w.ExpNs = []int64{1, 1 * ms}[r.Intn(2)]
+	}
 	w.CleanNs = []int64{0, 20 * ms}[r.Intn(2)]
 	w.Keys = 1 + r.Intn(3)
 	nt := 1 + r.Intn(6)
